@@ -354,6 +354,9 @@ def run(cs, tier, run_index):
     if sw.draw(2) == 0 and not res.violations and a_out**a_in * b_out**b_in <= 600:
         try:
             p_arr, v_arr = build()[1]
+            # the caller's work buffers are its own: `contain` may hand back the generated array itself (a 1 x n array is
+            # already Fortran-contiguous), and the refill below must never reach the data the reference models read
+            p_arr, v_arr = p_arr.copy(), v_arr.copy()
             g1 = E.ExtendedNonlocalGame(p_arr, v_arr)
             o1 = call_value(g1.unentangled_value, res, "unentangled(sweep step 0)")
             prob2, pred2, meta2 = draw_game(cs.s("game:sweep"), tier, like=meta)
